@@ -15,6 +15,7 @@ def run(facts, tier):
         ("seed checks", T.seed_checks, 4, "seed hash mismatch throws before entries of an input are used"),
         ("builder/reset", T.builder_reset, 2, "union reset re-reads theta after the table reset"),
         ("couplings", lambda fa: cowrite.obligations(fa, ['theta_union_base']), 2, "fields that every mutator updates together (counters, extremes, cached values) are still updated together"),
+        ("tautologies", lambda fa: generic_lints.tautologies(fa, ('theta/', 'tuple/')), 2, "no comparison / assignment / min-max with two identical operands, no if-else with identical arms"),
         ("duplicate operands", lambda fa: generic_lints.duplicate_conjuncts(fa, ('theta/', 'tuple/')), 2, "no logical chain tests the same operand twice (copy-paste of the wrong peer)"),
     ):
         o = f(facts)
